@@ -241,6 +241,10 @@ func Call(t *rapid.T, op string) api.Case {
 		if rapid.Bool().Draw(t, "subsecond") {
 			v.TimeNanos = rapid.IntRange(0, 999_999_999).Draw(t, "nanos")
 		}
+		if rapid.IntRange(0, 11).Draw(t, "special.instant") == 0 {
+			// an instant that means something to a program, carried in a location where its wall clock is an ordinary civil time
+			v.ExtremeTime = rapid.SampledFrom([]string{"zero-east", "zero-east-14", "epoch-east"}).Draw(t, "instant")
+		}
 		// the civil fields of the constructed time.Time (gap normalisation is Go's business)
 		_, c.DateTime = api.SetTimeArg(c, v)
 	case "GetDoorControlState", "OpenDoor":
